@@ -129,3 +129,80 @@ def shuffle_check(inp):
 
 Oracle(SP + "ShuffleContinuumSampler.sample_from_continuum", shuffle_cases, shuffle_check)
 Oracle(SP + "ShuffleContinuumSampler._random_from_segments", shuffle_cases, shuffle_check)
+
+
+# ------------------------------------------------------------------------------------------ StatisticalContinuumSampler (C15)
+def stat_cases(rng, tier):
+    labels = ["a", "b", "c"]
+    k = 0
+    for n, mx in ((2, 4), (3, 3), (4, 3)):
+        for spec in common.grid_continua(rng, n, mx, 40, labels, allow_empty=False, count=5 if tier == "quick" else 30):
+            yield {"continuum": spec, "ground_truth": None if k % 2 else sorted(spec)[:2], "custom": k % 3 == 0, "weights": k % 2 == 0,
+                   "seed": rng.randint(0, 10 ** 6), "draws": 40 if tier == "quick" else 300}
+            k += 1
+
+
+def stat_check(inp):
+    import numpy as np
+    pa = pkg()
+    c = common.make_continuum(inp["continuum"])
+    before = [(a, [(u.segment.start, u.segment.end, u.annotation) for u in c.iter_annotator(a)]) for a in c.annotators]
+    s = pa.StatisticalContinuumSampler()
+    np.random.seed(inp["seed"])
+    if inp["custom"]:
+        anns = ["x1", "x2", "x3"]
+        cats = ["p", "q", "r"]
+        w = [0.5, 0.5, 0.0] if inp["weights"] else None
+        par = dict(avg_num_units_per_annotator=3.0, std_num_units_per_annotator=1.0, avg_gap=2.0, std_gap=1.0, avg_duration=4.0, std_duration=1.5)
+        s.init_sampling_custom(anns, categories=cats, categories_weight=w, **par)
+        gt, allowed = anns, set(cats[:2] if w else cats)
+    else:
+        s.init_sampling(c, inp["ground_truth"])
+        gt, allowed = sorted(inp["ground_truth"] or inp["continuum"]), set(c.categories)
+        durs = [u[1] - u[0] for us in inp["continuum"].values() for u in us]
+        nbs = [len(us) for us in inp["continuum"].values()]
+        labs = [u[2] for us in inp["continuum"].values() for u in us]
+        par = dict(avg_num_units_per_annotator=float(np.mean(nbs)), std_num_units_per_annotator=float(np.std(nbs)),
+                   avg_duration=float(np.mean(durs)), std_duration=float(np.std(durs)))
+        measured = dict(avg_num_units_per_annotator=s._avg_nb_units_per_annotator, std_num_units_per_annotator=s._std_nb_units_per_annotator,
+                        avg_duration=s._avg_unit_duration, std_duration=s._std_unit_duration)
+        for k_, v_ in par.items():
+            if abs(measured[k_] - v_) > 1e-9:
+                return fail("init_sampling measures mean / deviation of units per annotator and of durations on the reference", inp,
+                            {k_: measured[k_]}, {k_: v_})
+        freq = {l: labs.count(l) / len(labs) for l in set(labs)}
+        got = dict(zip([str(x) for x in s._categories], [float(x) for x in s._categories_weight]))
+        if any(abs(got.get(l, 0) - f) > 1e-9 for l, f in freq.items()) or abs(sum(got.values()) - 1) > 1e-9:
+            return fail("category weights are the category frequencies of the reference", inp, got, freq)
+    nb, dur, cat_counts = [], [], {}
+    for _ in range(inp["draws"]):
+        try:
+            new = s.sample_from_continuum
+        except ValueError as ex:
+            continue            # the measure-zero boundary draw (duration exactly the precision) is rejected by Continuum.add
+        if not new or list(new.annotators) != gt:
+            return fail("every statistical sample is non-empty and has exactly the ground-truth annotators", inp, list(new.annotators), gt)
+        for a in new.annotators:
+            us = list(new.iter_annotator(a))
+            nb.append(len(us))
+            for u in us:
+                if not (u.segment.end - u.segment.start > 1e-6):
+                    return fail("only segments longer than the segment precision", inp, (u.segment.start, u.segment.end), "> 1e-6")
+                if u.annotation not in allowed:
+                    return fail("only categories of the reference (or of the supplied list, with non-zero weight)", inp, u.annotation, sorted(allowed))
+                dur.append(u.segment.end - u.segment.start)
+                cat_counts[u.annotation] = cat_counts.get(u.annotation, 0) + 1
+    after = [(a, [(u.segment.start, u.segment.end, u.annotation) for u in c.iter_annotator(a)]) for a in c.annotators]
+    if before != after:
+        return fail("sampling leaves the reference continuum unchanged", inp, after, before)
+    # loose distribution checks (5 standard errors): unit durations ~ |N(avg, std)| conditioned on >= precision
+    if len(dur) > 200 and par["std_duration"] < par["avg_duration"] / 3:
+        m = float(np.mean(dur))
+        se = max(par["std_duration"], 1e-6) / np.sqrt(len(dur))
+        if abs(m - par["avg_duration"]) > 6 * se + 0.02 * par["avg_duration"]:
+            return fail("unit durations follow the normal law with the measured / supplied parameters", inp, m, par["avg_duration"])
+    return None
+
+
+Oracle(SP + "StatisticalContinuumSampler.sample_from_continuum", stat_cases, stat_check)
+Oracle(SP + "StatisticalContinuumSampler.init_sampling", stat_cases, stat_check)
